@@ -48,13 +48,14 @@
 //!
 //! Fourth stream (first field 4): corrupt_spelling as a function of the TEXT, all three modes; the model
 //! computes everything (split_words, clusters, classes, the tables from the dictionary content, every draw):
-//! input  = (4 mode fd seed text items miss (prob pc art temp) aux)
+//! input  = (4 mode fd seed text items miss (prob pc art temp) aux divs)
 //!          mode: 0 Artificial(pc, temp, Some(chars)), 1 Realistic(missp), 2 Mixed(art, pc, temp, Some(chars), missp),
 //!                3 Artificial(pc, temp, None), 4 Mixed(art, pc, temp, None, missp)
 //!          items = ((key freq weight) ...): the lines of the character dictionary file; weight = the f64
 //!                  (freq as f64).powf(1.0 / temp) (libm: data for the model); miss = ((word (misspelling ...)) ...)
 //!          aux = what the real crate says about the text (text::split_words with Match::start, CharString
 //!                clusters, Character::is_alphabetic / is_punctuation): compared with the model's by `agree`
+//!          divs = ((a b q) ...): q = (a as f64) / (b as f64) computed here; the model's binary64 division must give the same bits
 //! output = (run1 run2): ((code points of the corrupted text)) | (-777), two independent runs
 use rand::SeedableRng;
 use rand_chacha::ChaCha8Rng;
@@ -892,6 +893,8 @@ struct E4 {
     pc: f64,
     art: f64,
     temp: f64,
+    /// division probes (a, b): the model's binary64 division / usize-to-f64 conversion against the hardware
+    divs: Vec<(u64, u64)>,
 }
 
 fn e4_has_tables(mode: u8) -> bool {
@@ -942,12 +945,13 @@ fn e4_to_val(e: &E4) -> Val {
         Val::L(e.miss.iter().map(|(w, rs)| Val::L(vec![Val::str(w), Val::L(rs.iter().map(|r| Val::str(r)).collect())])).collect()),
         Val::L(vec![f64_val(e.prob), f64_val(e.pc), f64_val(e.art), f64_val(e.temp)]),
         e4_aux(&e.text),
+        Val::L(e.divs.iter().map(|(a, b)| Val::L(vec![Val::I(*a as i64), Val::I(*b as i64), f64_val((*a as f64) / (*b as f64))])).collect()),
     ])
 }
 
 fn val_e4(v: &Val) -> Option<E4> {
     let l = v.as_l()?;
-    if l.len() != 9 || l[0].as_i()? != 4 {
+    if (l.len() != 9 && l.len() != 10) || l[0].as_i()? != 4 {
         return None;
     }
     let mode = u8::try_from(l[1].as_i()?).ok()?;
@@ -997,7 +1001,20 @@ fn val_e4(v: &Val) -> Option<E4> {
     if !(temp > 0.01 && temp < 100.0) {
         return None;
     }
-    Some(E4 { mode, fd, seed, text, items, miss, prob, pc, art, temp })
+    let mut divs: Vec<(u64, u64)> = vec![];
+    if let Some(dv) = l.get(9) {
+        for d in dv.as_l()? {
+            let (a, b) = (u64::try_from(d.nth(0)?.as_i()?).ok()?, u64::try_from(d.nth(1)?.as_i()?).ok()?);
+            if a >= 1 << 62 || b >= 1 << 62 {
+                return None;
+            }
+            divs.push((a, b));
+        }
+        if divs.len() > 100 {
+            return None;
+        }
+    }
+    Some(E4 { mode, fd, seed, text, items, miss, prob, pc, art, temp, divs })
 }
 
 fn run_e4(e: &E4) -> (Val, Vec<String>) {
@@ -1091,6 +1108,14 @@ const UNITS4: &[&str] = &[
 const UNITS4_SEAMY: &[&str] = &["\u{301}", "\u{200d}", "🇩", "🇪", "\u{1100}", "\u{1161}", "क", "\u{94d}", "\u{a7ce}"];
 const SEPS4: &[&str] = &[" ", " ", " ", " ", "  ", "\t", "\n", "\u{a0}", "\u{2003}", " \u{3000}"];
 
+fn unit4s(rng: &mut Rng, seamy: bool) -> &'static str {
+    if seamy && rng.chance(2, 5) {
+        *rng.pick(UNITS4_SEAMY)
+    } else {
+        unit4(rng)
+    }
+}
+
 fn unit4(rng: &mut Rng) -> &'static str {
     if rng.chance(1, 12) {
         *rng.pick(UNITS4_SEAMY)
@@ -1119,10 +1144,13 @@ fn gen_e4(rng: &mut Rng) -> E4 {
     };
     let nw = rng.range(1, 4);
     let ascii_only = rng.chance(1, 5);
+    // one case in six: seam-prone units everywhere and (below) one edit per character, so that re-segmenting the word
+    // between the calls of the chain matters
+    let seamy = !ascii_only && rng.chance(1, 5);
     let words: Vec<String> = (0..nw)
         .map(|_| {
             (0..rng.range(1, 4))
-                .map(|_| if ascii_only { *rng.pick(&["a", "b", "c", "0", ".", "-"]) } else { unit4(rng) })
+                .map(|_| if ascii_only { *rng.pick(&["a", "b", "c", "0", ".", "-"]) } else { unit4s(rng, seamy) })
                 .collect::<String>()
         })
         .collect();
@@ -1169,7 +1197,7 @@ fn gen_e4(rng: &mut Rng) -> E4 {
             };
             for i in 0..=cs.len() as isize {
                 if rng.chance(1, 2) {
-                    let c = unit4(rng).to_string();
+                    let c = unit4s(rng, seamy).to_string();
                     let f = rng.range(1, 5);
                     push(rng, at(i - 1), c, at(i), f);
                 }
@@ -1251,10 +1279,30 @@ fn gen_e4(rng: &mut Rng) -> E4 {
         }
     }
     let prob = if rng.chance(1, 40) { 0.0 } else if rng.chance(1, 30) { 1.5 } else { gen_prob(rng) };
-    let pc = if rng.chance(1, 6) { 0.0 } else { gen_prob(rng) };
+    let pc = if seamy { 1.0 } else if rng.chance(1, 6) { 0.0 } else { gen_prob(rng) };
+    let prob = if seamy && prob > 0.0 { 1.0 } else { prob };
     let art = if rng.chance(1, 10) { 0.0 } else if rng.chance(1, 10) { 1.0 } else if rng.chance(1, 20) { 2.5 } else { gen_prob(rng) };
     let temp = *rng.pick(&[2.0, 2.0, 1.0, 3.0, 0.7]);
-    E4 { mode, fd: rng.chance(1, 2), seed: rng.below(1 << 30) as u64, text, items, miss, prob, pc, art, temp }
+    // division probes: every (frequency, total) of the dictionary, and operands of all magnitudes (above 2^53 the
+    // conversion to f64 rounds), quotients at the filter threshold
+    let total: u64 = items.iter().map(|x| x.1 as u64).sum();
+    let mut divs: Vec<(u64, u64)> = items.iter().map(|x| (x.1 as u64, total)).collect();
+    for _ in 0..4 {
+        let big = |rng: &mut Rng| -> u64 {
+            let bits = rng.range(1, 62);
+            (rng.next_u64() >> (64 - bits)) | if rng.chance(1, 2) { 1u64 << (bits - 1) } else { 0 }
+        };
+        let (a, b) = match rng.below(5) {
+            0 => {
+                let k = 1 + rng.below(1000) as u64;
+                (k, (10_000 * k as i64 + rng.below(3) as i64 - 1) as u64)
+            }
+            1 => (big(rng), 0),
+            _ => (big(rng), big(rng)),
+        };
+        divs.push((a, b));
+    }
+    E4 { mode, fd: rng.chance(1, 2), seed: rng.below(1 << 30) as u64, text, items, miss, prob, pc, art, temp, divs }
 }
 
 // ------------------------------------------------------------------ generators
